@@ -6,6 +6,8 @@ import Nsq.Proofs.AggregateFetch
 import Nsq.Proofs.AggregateDedup
 import Nsq.Proofs.Fetch
 import Nsq.Proofs.AggregateWrap
+import Nsq.Proofs.Latency
+import Nsq.Proofs.ViewOrder
 /-!
 # C18 — nsqadmin's cluster view equals the sum of its parts
 
@@ -13,13 +15,18 @@ Property theorems only, about the model `Nsq.Model.Aggregate` (tied to the code 
 correspondence harness `harness/e7/view_test.go`: generated clusters, every subset of failing
 upstreams, malformed answers, both modes). They hold for every cluster: any number of
 nsqlookupd / nsqd, any topics, channels, clients and counter values (counters are unbounded
-integers: the statements are about the mathematical sums; int64 wrap-around is outside the model).
+integers: the sum statements are about the mathematical sums; what Go's int64 makes of them is
+`int64_sum_wraps` … `counters_go_sum` below).
 
 The fetch goroutines finish in any order; the model processes upstreams in list order and the
 `_order` theorems show that what is claimed does not depend on that order.
 
-`Fixes.all` is the tree with the four guards of `fixes/*.patch`; the `*_without_*` theorems are the
-Lean witnesses that the unguarded code panics (each replayed on the real code by the check).
+`Fixes.all` is the tree with all six guards: the four committed ones (F4, null array elements, missing
+latency member, channel not found) and the two proposed in round 7 (`nilPct` = fixes/F53, `clearNodes` =
+fixes/F54 — until they are committed to /repo the two defects are open known findings). The `*_without_*`
+theorems are the Lean witnesses that the unguarded code panics (each replayed on the real code by the check).
+One clause of the property is false of the code *and* of `Fixes.all`: "502 only when none answers" with
+zero known producers (`only_502_when_something_failed_false`, open finding, no patch).
 -/
 namespace Nsq.Props.C18
 open Nsq.Model.Aggregate
@@ -291,7 +298,7 @@ theorem partial_warning_topic (w : World) (name : String) (v : View)
       exact absurd (hrule.1.1 rfl a ha) hne
     | got tm f2 =>
       obtain ⟨ts, m⟩ := tm
-      obtain ⟨t, ht⟩ := addAll_ok ts { name := name }
+      obtain ⟨t, ht⟩ := addAll_ok ts name (nsqdStats_clean w ps name "" false ts m f2 hs2)
       simp only [ht, Except.ok.injEq] at h
       subst h
       obtain ⟨hf, _⟩ := hrule.2 _ f2 rfl
@@ -390,7 +397,7 @@ theorem topic_view_is_sum (w : World) (name : String) (v : View)
     | allFailed => simp only [Except.ok.injEq] at h; subst h; simp at h200
     | got tm f2 =>
       obtain ⟨ts, m⟩ := tm
-      obtain ⟨t, ht⟩ := addAll_ok ts { name := name }
+      obtain ⟨t, ht⟩ := addAll_ok ts name (nsqdStats_clean w ps name "" false ts m f2 hs2)
       simp only [ht, Except.ok.injEq] at h
       subst h
       exact ⟨ps, f1, ts, m, f2, t, hs1, hs2, ht, rfl⟩
@@ -537,6 +544,221 @@ example : (match view Fixes.all (chanWorld true) (.channel "t1" "nosuch") with
     | .ok v => v.status | .error _ => 0) = 404 := by decide
 example : (match view Fixes.all f4World .nodes with
     | .ok v => v.status | .error _ => 0) = 200 := by decide
+
+/-! ## The latency document: shape of `e2e_processing_latency.percentiles` (round 7, `fixes/F53`) -/
+
+section Latency
+open Nsq.Model.Latency Nsq.Proofs.Latency
+
+/-- A channel whose latency document is `{"count":…,"percentiles":[null]}`. -/
+def pctChan : Chan := { name := "c1", cnt := {}, paused := false, clients := [], e2e := true, pct := [none] }
+def pctNsqd (filters : Bool) (extra : List (Option Topic)) : Nsqd :=
+  { addr := "N0", info := some info0, filters := filters,
+    stats := some ([some { name := "t1", cnt := {}, paused := false, e2e := true, channels := [some (chan0 true)] }] ++ extra) }
+def pctTopic : Topic := { name := "zz", cnt := {}, paused := false, e2e := true, channels := [some pctChan] }
+/-- The null percentile sits in a topic `zz` that the request does not ask for, on an nsqd (old, or
+behind a proxy) that does not honour `topic=`. -/
+def pctWorld : World := { lookupds := [], nsqdAddrs := ["N0"], nsqds := [pctNsqd false [some pctTopic]] }
+
+/-- **The defect reported for round 7 is genuine on the tree without F53**: one `null` inside
+`percentiles` anywhere in an nsqd's `/stats` answer makes `UnmarshalJSON` write to a nil map inside the
+GetNSQDStats fetch goroutine — process death, for the topic, channel, node and counter views alike
+(here: the view of topic `t1`, while the `null` is in another topic). -/
+theorem view_panics_without_pct_guard :
+    faultOf (view { Fixes.all with nilPct := false } pctWorld (.topic "t1")) =
+      some (.nilMapWrite "E2eProcessingLatencyAggregate.UnmarshalJSON p[\"min\"]") := by decide
+
+theorem view_no_panic_false_without_pct_guard :
+    ¬ view_no_panic_for { Fixes.all with nilPct := false } := by
+  intro h
+  obtain ⟨v, hv, _⟩ := h pctWorld (.topic "t1")
+  have := view_panics_without_pct_guard
+  rw [hv] at this
+  cases this
+
+example : faultOf (view { Fixes.all with nilPct := false } pctWorld .counter) =
+    some (.nilMapWrite "E2eProcessingLatencyAggregate.UnmarshalJSON p[\"min\"]") := by decide
+example : (match view Fixes.all pctWorld (.topic "t1") with
+    | .ok v => v.status | .error _ => 0) = 200 := by decide
+/-- The list views of direct mode decode `/stats` into `struct{Name}` only: they never see the document. -/
+example : (match view { Fixes.all with nilPct := false } pctWorld .topics with
+    | .ok v => v.status | .error _ => 0) = 200 := by decide
+
+/-- **latency_unmarshal.** `UnmarshalJSON` on the tree without F53 faults exactly on the documents with a
+`null` element; with F53 it never faults and returns the non-null entries in order. -/
+theorem latency_unmarshal (l : List Pct) :
+    ((∃ e, unmarshal false l = .error e) ↔ none ∈ l) ∧
+    unmarshal true l = .ok (l.filter (·.isSome)) ∧ AllSome (l.filter (·.isSome)) := by
+  refine ⟨⟨?_, unmarshal_unfixed_panics l⟩, unmarshal_fixed l, filter_allSome l⟩
+  rintro ⟨e, he⟩
+  apply Classical.byContradiction
+  intro hn
+  have : AllSome l := fun x hx hx0 => hn (hx0 ▸ hx)
+  rw [unmarshal_unfixed_ok l this] at he
+  cases he
+
+example : unmarshal false [some 99, none] =
+    .error (.nilMapWrite "E2eProcessingLatencyAggregate.UnmarshalJSON p[\"min\"]") := rfl
+example : unmarshal true [some 99, none, some 95] = .ok [some 99, some 95] := rfl
+
+/-- **latency_add_total.** `e.Add(e2)` never writes to a nil map when `e` holds none — whatever `e2` holds:
+its entries are only read, entries without a "quantile" member are found (or appended) under 0.0 — and
+afterwards `e` still holds no nil map; its keys are the old ones followed by the new ones of `e2`, without
+repetition if there was none. (Covers both ways an aggregate starts: fresh, in `GetNSQDStats`' channel map and in
+the handlers, or as the first node's own document, in the channel list of `TopicStats.Add`.) -/
+theorem latency_add_total (p e2 : List Pct) (h : AllSome p) :
+    ∃ r, add p e2 = .ok r ∧ AllSome r ∧
+      (∀ k, k ∈ r.map key ↔ k ∈ p.map key ∨ k ∈ e2.map key) ∧
+      ((p.map key).Nodup → (r.map key).Nodup) ∧
+      (∃ ext, r.map key = p.map key ++ ext) :=
+  add_spec e2 p h
+
+example : add [some 99, some 95] [some 50, none, some 99, some 0] = .ok [some 99, some 95, some 50, some 0] := rfl
+
+/-- **latency_aggregate_no_panic.** With F53, for any number of nodes reporting percentile lists of any
+lengths, with repeated, missing or `null` entries: decoding and aggregating never faults, and the aggregate
+has exactly one entry per distinct "quantile" reported in a non-null entry by some node. -/
+theorem latency_aggregate_no_panic (docs : List (List Pct)) :
+    ∃ r, aggregate true docs = .ok r ∧ AllSome r ∧ (r.map key).Nodup ∧
+      ∀ k, k ∈ r.map key ↔ ∃ d ∈ docs, some k ∈ d :=
+  aggregate_fixed docs
+
+example : aggregate true [[some 99, some 95, some 50], [none, some 50], [], [some 1, some 99, none]] =
+    .ok [some 99, some 95, some 50, some 1] := rfl
+
+/-- Without F53 a `null` entry in any node's document is fatal. -/
+theorem latency_aggregate_panics_without_guard (docs : List (List Pct)) (h : ∃ d ∈ docs, none ∈ d) :
+    ∃ e, aggregate false docs = .error e := by
+  obtain ⟨e, he⟩ := decodeAll_unfixed_panics docs h
+  exact ⟨e, by simp [aggregate, he]⟩
+
+example : ∃ e, aggregate false [[some 99], [none]] = .error e :=
+  latency_aggregate_panics_without_guard _ ⟨[none], by simp, by simp⟩
+
+/-- Why F53 *drops* the nil maps instead of merely skipping them in `UnmarshalJSON`'s loop
+(`if p == nil { continue }`): a nil map left in the first node's document — which `TopicStats.Add` takes over
+as the aggregate of the channel — is written to by the next node's `Add` as soon as that node reports an
+entry whose "quantile" reads 0.0 (member missing). `latency_add_total`'s hypothesis is necessary. -/
+theorem latency_skip_only_repair_insufficient :
+    add [none] [some 0] = .error (.nilMapWrite "E2eProcessingLatencyAggregate.Add p[i][\"max\"]") := rfl
+
+end Latency
+
+/-! ## A `nodes` member sent by the upstream (round 7, `fixes/F54`) -/
+
+/-- A channel object that carries `"nodes":[null]`. -/
+def junkChan : Chan :=
+  { name := "c1", cnt := {}, paused := false, clients := [], e2e := true, upNodes := [false] }
+def junkNsqd (addr host : String) (c : Chan) : Nsqd :=
+  { addr := addr, info := some { info0 with addr := addr, hostname := host, tcp := addr ++ ":4150" }, filters := true,
+    stats := some [some { name := "t1", cnt := {}, paused := false, e2e := true, channels := [some c] }] }
+/-- Two nsqds (hostnames `a` < `b`: list order = the order `sort.Sort(TopicStatsByHost)` gives) report
+`t1/c1`; the first one's channel object carries `"nodes":[null]`. -/
+def junkWorld : World :=
+  { lookupds := [], nsqdAddrs := ["N0", "N1"], nsqds := [junkNsqd "N0" "a" junkChan, junkNsqd "N1" "b" (chan0 true)] }
+
+/-- **Second finding of the sweep**, on the tree without F54: `TopicStats.Add` takes the first node's channel
+object — `NodeStats` decoded from the upstream included — as the aggregate; the second node's `ChannelStats.Add`
+appends to it and sorts: `ChannelStatsByHost.Less` dereferences the nil. In the handler: a 500 although every
+upstream answered. -/
+theorem topic_500_without_nodes_guard :
+    (match view { Fixes.all with clearNodes := false } junkWorld (.topic "t1") with
+     | .ok v => v.status
+     | .error _ => 0) = 500 := by decide
+
+theorem view_no_panic_false_without_nodes_guard :
+    ¬ view_no_panic_for { Fixes.all with clearNodes := false } := by
+  intro h
+  obtain ⟨v, hv, h500⟩ := h junkWorld (.topic "t1")
+  have := topic_500_without_nodes_guard
+  rw [hv] at this
+  exact h500 this
+
+example : (match view Fixes.all junkWorld (.topic "t1") with
+    | .ok v => v.status | .error _ => 0) = 200 := by decide
+/-- One reporter only: nothing is sorted, no 500 even without the guard. -/
+example : (match view { Fixes.all with clearNodes := false }
+      { junkWorld with nsqdAddrs := ["N0"] } (.topic "t1") with
+    | .ok v => v.status | .error _ => 0) = 200 := by decide
+/-- The channel map of GetNSQDStats (channel and counter views) starts from an aggregate nsqadmin creates. -/
+example : (match view { Fixes.all with clearNodes := false } junkWorld (.channel "t1" "c1") with
+    | .ok v => v.status | .error _ => 0) = 200 := by decide
+
+/-! ## Order of the lists the views return (round 7) -/
+
+section Order
+open Nsq.Model.ViewOrder Nsq.Proofs.ViewOrder
+
+/-- **order_by_host.** `ChannelStatsByHost`, `ClientsByHost`, `TopicStatsByHost`, `ProducersByHost` (and
+`ProducerTopics`, by topic name) compare one string key with `<`: a strict weak order, which is what `sort.Sort`
+needs to promise a sorted result; and for such a comparator the sorted result is determined up to the exchange of
+elements with equal keys: two sorted arrangements of the same reports show the same key sequence. (That
+`sort.Sort` returns a sorted permutation when `Less` is a strict weak order is the library's contract —
+trusted; the harness' order oracle `vfE7SortCheck` checks it on every answer.) -/
+theorem order_by_host {α : Type} (f : α → String) :
+    StrictWeakOrder (fun a b : α => hostLess (f a) (f b)) ∧
+    ∀ l₁ l₂ : List α, l₁.Perm l₂ →
+      SortedBy (fun a b => hostLess (f a) (f b)) l₁ → SortedBy (fun a b => hostLess (f a) (f b)) l₂ →
+      l₁.map f = l₂.map f :=
+  ⟨swo_on hostLess_swo f, sortedBy_host_determined f⟩
+
+example : SortedBy (fun a b : String × Nat => hostLess a.1 b.1) [("alpha", 2), ("alpha", 1), ("beta", 0)] := by
+  unfold SortedBy; decide
+
+/-- **order_clients_by_topology.** `ClientStatsByNodeTopology.Less` (the client list of the channel view) is
+*not* a strict weak order — it is not even irreflexive: two clients of one node that are equally close to it
+(both in the node's zone, or both only in its region) are each "less" than the other, so `sort.Sort` promises
+nothing about their relative order, nor — strictly by its contract — about the rest. What does hold: across
+different nodes the comparator is the strict order on `Node` (asymmetric); and `sort.Sort` only swaps, so
+the list stays a permutation of the clients (`channels_merge`), which is all the check compares. -/
+theorem order_clients_by_topology :
+    ¬ StrictWeakOrder topoLess ∧
+    (∀ a b : ClientKey, a.node = b.node → a.nodeRegion = b.nodeRegion → a.nodeZone = b.nodeZone →
+      cls a = cls b → cls a ≤ 1 → topoLess a b = true ∧ topoLess b a = true) ∧
+    (∀ a b : ClientKey, a.node ≠ b.node → topoLess a b = true → topoLess b a = false) :=
+  ⟨topoLess_not_swo, topoLess_both_of_close, topoLess_asymm_across_nodes⟩
+
+example : topoLess ⟨"N0", "r", "z", "r", "z"⟩ ⟨"N0", "r", "z", "r", "z"⟩ = true := by decide
+example : topoLess ⟨"N0", "r", "z", "r", "y"⟩ ⟨"N0", "r", "z", "r", "x"⟩ = true ∧
+    topoLess ⟨"N0", "r", "z", "r", "x"⟩ ⟨"N0", "r", "z", "r", "y"⟩ = true := by decide
+example : topoLess ⟨"N0", "r", "z", "q", "y"⟩ ⟨"N1", "r", "z", "r", "z"⟩ = true := by decide
+
+end Order
+
+/-! ## "502 only when none answers" and zero producers (audit 7, C13) -/
+
+/-- One nsqlookupd that answers every question — and knows no producer of `t1`. -/
+def healthyEmptyWorld : World :=
+  { lookupds := [⟨"L0", some ["t1"], some [], some []⟩], nsqdAddrs := [], nsqds := [] }
+
+/-- **The clause "502 only when none answers" is false of the code (and of this model of it) when no producer is
+known**: every upstream that is asked answers, yet the topic, channel and counter views are 502 — GetNSQDStats
+tests `len(errs) == len(producers)`, which is `0 == 0`. The `partial_warning_*` theorems state the rule the code
+follows ("some stage got no answer", which includes the stage that asked nobody); the property's reading is
+checked by the python oracle and recorded as the open finding `view:502-without-producers`. -/
+theorem view_502_although_every_upstream_answered :
+    (match view Fixes.all healthyEmptyWorld (.topic "t1") with | .ok v => v.status | .error _ => 0) = 502 ∧
+    (match view Fixes.all healthyEmptyWorld (.channel "t1" "c1") with | .ok v => v.status | .error _ => 0) = 502 ∧
+    (match view Fixes.all healthyEmptyWorld .counter with | .ok v => v.status | .error _ => 0) = 502 ∧
+    (match view Fixes.all healthyEmptyWorld .nodes with | .ok v => v.status | .error _ => 0) = 200 := by decide
+
+/-- The property's clause as a statement about the model: a 502 implies that some upstream answer failed. -/
+def only_502_when_something_failed : Prop :=
+  ∀ (w : World) (req : Request) (v : View), view Fixes.all w req = .ok v → v.status = 502 →
+    (∃ l ∈ w.lookupds, l.topics = none ∨ l.nodes = none ∨ l.lookup = none) ∨
+    (∃ n ∈ w.nsqds, n.info = none ∨ n.stats = none) ∨ (∃ a ∈ w.nsqdAddrs, nsqdAt w a = none)
+
+theorem only_502_when_something_failed_false : ¬ only_502_when_something_failed := by
+  intro h
+  have h502 : ∃ v, view Fixes.all healthyEmptyWorld (.topic "t1") = .ok v ∧ v.status = 502 := by
+    refine ⟨{ status := 502 }, rfl, rfl⟩
+  obtain ⟨v, hv, hs⟩ := h502
+  rcases h healthyEmptyWorld (.topic "t1") v hv hs with ⟨l, hl, h1⟩ | ⟨n, hn, _⟩ | ⟨a, ha, _⟩
+  · simp only [healthyEmptyWorld, List.mem_singleton] at hl
+    subst hl
+    simp at h1
+  · simp [healthyEmptyWorld] at hn
+  · simp [healthyEmptyWorld] at ha
 
 /-! ## fetch_terminates -/
 
